@@ -116,7 +116,7 @@ example : retryWait 12 = 4096 ∧ retryWait 13 = 4096 ∧ retryWait 3 = 8 := by 
 
 /-! ### T1: functions the model transcribes, statement by statement (white space collapsed) -/
 
-def expected_Store_initializeActive : List String := ["const baseRetryInterval = 1 * time.Millisecond", "retryWait := baseRetryInterval", "_, waitingIsPointless := s.client.(*FileClient)", "for { var missing int for name, cs := range s.active.m { if cs != nil { continue } sv, err := s.client.Get(ctx, name) if err == nil { s.active.m[name] = &cachedSecret{ Secret: sv, LastAccess: s.timeNow().Unix(), Declared: true, } continue } else if ctx.Err() != nil { return err } s.logf(\"[store] error fetching %q: %v (retrying)\", name, err) missing++ } if missing == 0 { return nil } if waitingIsPointless { return fmt.Errorf(\"missing %d unavailable secrets\", missing) } sleepFor(ctx, retryWait) if retryWait < 4*time.Second { retryWait += retryWait } }"]
+def expected_Store_initializeActive : List String := ["const baseRetryInterval = 1 * time.Millisecond", "retryWait := baseRetryInterval", "_, waitingIsPointless := s.client.(*FileClient)", "for { var missing int for name, cs := range s.active.m { if cs != nil { continue } sv, err := s.client.Get(ctx, name) if err == nil { s.active.m[name] = &cachedSecret{ Secret: sv, LastAccess: s.timeNow().Unix(), Declared: true, } continue } else if ctx.Err() != nil { return err } missing++ } if missing == 0 { return nil } if waitingIsPointless { return fmt.Errorf(\"missing %d unavailable secrets\", missing) } sleepFor(ctx, retryWait) if retryWait < 4*time.Second { retryWait += retryWait } }"]
 
 /-- initializeActive: rounds over the names that still lack a value; a context that has ended ends construction; a file-backed client gives up at once; otherwise wait (1 ms doubling up to about four seconds) and go round again -/
 theorem fact_Store_initializeActive_as_transcribed : Facts.body_Store_initializeActive = expected_Store_initializeActive := by rfl
